@@ -512,6 +512,8 @@ func (i ICMPv6Option) String() string {
 
 // DecodeFromBytes decodes the given bytes into this layer.
 func (i *ICMPv6Options) DecodeFromBytes(data []byte, df gopacket.DecodeFeedback) error {
+	// truncate old options
+	*i = (*i)[:0]
 	for len(data) > 0 {
 		if len(data) < 2 {
 			df.SetTruncated()
